@@ -513,6 +513,8 @@ func vfAclOracles(t *vfTW, pre *vfTopicSnap, op vfAclOp, code int, frames map[st
 				}
 				if ps.Given.IsOwner() && !(before && bs.Given.IsOwner()) && actor != owner {
 					bad("C07:ownership-granted-by-non-owner", fmt.Sprintf("%s: %s granted O to %s", op, actor, u))
+					// C06 "ownership moves only when the current owner grants it ...": the offer itself is the first half of the move
+					bad("C06:ownership-offered-by-non-owner", fmt.Sprintf("%s: %s, who is not the owner (%s), put the owner bit into the grant of %s", op, actor, owner, u))
 				}
 			}
 			if wantChanged {
